@@ -21,7 +21,7 @@ func rebuildRule(c *core.Check, pk *packages.Package, node *types.Interface, rul
 	n := 0
 	docs := map[*types.Var]string{}
 	for _, dep := range pk.Imports {
-		if strings.HasSuffix(dep.PkgPath, "/ast") {
+		if strings.HasSuffix(dep.PkgPath, "xgo/ast") {
 			docs = fieldDocs(dep)
 		}
 	}
